@@ -33,6 +33,7 @@ type vC15Layout struct {
 	priv     []int          // private transaction indices
 	kind     map[int]string // idx -> kind of PAL
 	mism     string         // a payload id that matches no private transaction
+	reuse    [][2]int       // (attacker transaction whose header reuses an entry, victim transaction the entry was copied from)
 }
 
 // vKakResolver resolves the key agreement key of a DID (what PAL.Encrypt asks the VDR for)
@@ -121,6 +122,33 @@ func buildC15Universe(u *vUniverse) *vC15Layout {
 			mkp("hash-reuse-of-BC", 11, ab, []int{u.cipher(A, ab), u.cipher(B, ab)}, u.txs[idx].payload)
 		}
 	}
+	// attacker transactions whose headers REUSE ciphertext entries of existing private transactions (headers are public) mixed
+	// with entries the attacker encrypted itself: C (on none of the victims' lists) names itself next to the holder
+	byKind := func(k string) int {
+		for idx, kk := range ly.kind {
+			if kk == k {
+				return idx
+			}
+		}
+		panic(k)
+	}
+	ac, bc := []string{A, C}, []string{B, C}
+	mkr := func(kind string, at int, dids []string, victim int, ciphers []int) {
+		p := &vPal{dids: dids, ciphers: ciphers, mixed: true}
+		idx := u.add(vTxSpec{prevs: []int{ly.trunk + at}, clock: -1, pal: p, tag: "priv"})
+		ly.priv = append(ly.priv, idx)
+		ly.kind[idx] = kind
+		ly.reuse = append(ly.reuse, [2]int{idx, victim})
+	}
+	v1, v2, v3 := byKind("second-cipher-ours"), byKind("honest-AB"), byKind("dup-dids")
+	// first entry copied from a header whose first entry nobody can decrypt
+	mkr("reuse-first(undecryptable)-of-second-cipher-ours", 13, ac, v1, []int{u.txs[v1].pal.ciphers[0], u.cipher(A, ac), u.cipher(C, ac)})
+	// first entry copied from an honest header (decrypts, at A, to the victim's list)
+	mkr("reuse-first-of-honest-AB", 14, bc, v2, []int{u.txs[v2].pal.ciphers[0], u.cipher(B, bc), u.cipher(C, bc)})
+	// last entry copied
+	mkr("reuse-last-of-honest-AB", 15, ac, v2, []int{u.cipher(C, ac), u.cipher(A, ac), u.txs[v2].pal.ciphers[1]})
+	// first entry copied from a header that lists the holder A second
+	mkr("reuse-first-of-dup-dids", 16, ac, v3, []int{u.txs[v3].pal.ciphers[0], u.cipher(A, ac), u.cipher(C, ac)})
 	u.addPayload("mismatch", []byte("this payload matches no transaction"))
 	for idx, k := range ly.kind {
 		if k == "honest-AB" {
@@ -205,6 +233,31 @@ func (s *vSim) runC15Scenario(sc vScenario, ly *vC15Layout, dir string, checks *
 	startSets, startDiff := s.startSets()
 	r := s.rnd
 	nPeers := len(sc.Nodes) - 1
+	// 0. the attacker's transactions with reused header entries are handled FIRST (anybody may ask for them; the attacker C = peer 2,
+	// authenticated, does), then the attacker and the other unlisted/unauthenticated peers ask for the victim transactions
+	for _, fv := range ly.reuse {
+		s.exec(&vOp{Op: "inject", From: 2, To: 0, Msg: &vMsg{T: "pq", Ref: fv[0]}})
+		for _, p := range []int{2, 3, 6} {
+			s.exec(&vOp{Op: "inject", From: p, To: 0, Msg: &vMsg{T: "pq", Ref: fv[1]}})
+		}
+	}
+	// 0a. refusals that are STILL QUEUED (the peer does not read its stream) while a listed peer is served; the refused peers read later
+	for _, idx := range []int{ly.priv[0], ly.priv[1], ly.priv[3]} {
+		var held []int
+		for _, p := range []int{2, 3, 4, 6} {
+			before := len(s.sent)
+			s.exec(&vOp{Op: "inject", From: p, To: 0, Msg: &vMsg{T: "pq", Ref: idx}})
+			for _, pk := range s.sent[before:] {
+				held = append(held, pk.id)
+			}
+			for _, listed := range []int{1, 5} {
+				s.exec(&vOp{Op: "inject", From: listed, To: 0, Msg: &vMsg{T: "pq", Ref: idx}})
+			}
+		}
+		for _, id := range held {
+			s.exec(&vOp{Op: "deliver", M: id})
+		}
+	}
 	// 1. every peer variant asks for every private payload (and a public one, an unknown one, the empty ref)
 	for p := 1; p <= nPeers; p++ {
 		for _, idx := range append(append([]int{}, ly.priv...), ly.trunk+3, -1) {
